@@ -693,7 +693,7 @@ fn g_sgr(rng: &mut Rng) -> String {
     for _ in 0..1 + rng.below(4) {
         let code = *rng.pick(&[38u64, 48, 58]);
         let c = |rng: &mut Rng| g_chan(rng);
-        parts.push(match rng.below(16) {
+        parts.push(match rng.below(17) {
             0 => "0".to_string(),
             1 => "".to_string(),
             2 => (*rng.pick(&["1", "22", "3", "23", "5", "25", "9", "29", "01"])).to_string(),
@@ -708,6 +708,7 @@ fn g_sgr(rng: &mut Rng) -> String {
             12 => format!("{}:5:{}", code, rng.below(256)),
             13 => format!("{}:2:{}:{}:{}", code, c(rng), c(rng), c(rng)),
             14 => format!("{}:2::{}:{}:{}", code, c(rng), c(rng), c(rng)),
+            15 => (*rng.pick(&["7", "27", "39", "49"])).to_string(),
             _ => (*rng.pick(&["2", "8", "53", "59"])).to_string(),
         });
     }
